@@ -17,8 +17,10 @@ void (*vm_init_observer)(lp_id_t me, const struct vm_state *after);
 void (*vm_fini_observer)(lp_id_t me, const struct vm_state *s);
 struct ref_result REF;
 
-#define TOKEN_BASE 10u /* token types TOKEN_BASE..TOKEN_BASE+3: the offset is the remaining zero-delay hop budget */
-#define TOKEN_HOPS 3u
+#define TOKEN_BASE 10u /* token types TOKEN_BASE..TOKEN_BASE+TOKEN_HOPS: the offset is the remaining zero-delay hop budget */
+/* ts_mode 3 ("bursts", only through VM_FORCE_TS=3): integer timestamps, three sends out of four with zero delay, chains of up to 12
+ * simultaneous hops, so that many causally independent events share the timestamp a GVT reduction lands on */
+#define TOKEN_HOPS (VM.ts_mode == 3 ? 12u : 3u)
 
 static inline uint64_t mix64(uint64_t h, uint64_t v)
 {
@@ -289,6 +291,7 @@ static double pick_delay(uint64_t h, bool allow_zero)
 			return (d == 0.0 && !allow_zero) ? 0.25 : d;
 		}
 		case 1: return 0.01 + (double)((h >> 11) & 0xFFFFF) / (double)0x100000 * 2.0;
+		case 3: return ((h % 4) != 3 && allow_zero) ? 0.0 : 1.0;
 		default: {
 			static const double st[] = {0.0, 1.0, 1.0, 2.0};
 			double d = st[h % 4];
@@ -320,7 +323,7 @@ static void send_one(lp_id_t me, double now, unsigned cur_type, const void *cur_
 	double ts = now + delay;
 	/* API contract: a new event must not be ordered before the one being processed */
 	while(before_current(ts, type, buf, size, now, cur_type, cur_pl, cur_size)) {
-		delay += VM.ts_mode == 2 ? 1.0 : 0.25;
+		delay += VM.ts_mode >= 2 ? 1.0 : 0.25;
 		ts = now + delay;
 	}
 	if(ts == now)
